@@ -142,9 +142,7 @@ theorem walk_spec {f : Nat} {t : Tracker} {src : Nat} {blk : Nat × Nat} {ev : E
         · cases h
       · cases h
       · rename_i hst
-        split at h
-        · exact hgo (by rw [hst]; simp [dec_some, Status.decided]) h
-        · cases h
+        exact hgo (by rw [hst]; simp [dec_some, Status.decided]) h
       · rename_i hst
         exact hgo (by rw [hst]; simp [dec_some, Status.decided]) h
       · rename_i hst
@@ -184,9 +182,7 @@ theorem walk_finalized {f : Nat} {t : Tracker} {src : Nat} {blk : Nat × Nat} {e
         · cases h; rfl
         · cases h
       · cases h
-      · split at h
-        · exact hgo h
-        · cases h
+      · exact hgo h
       · exact hgo h
       · exact hgo h
 
@@ -522,9 +518,7 @@ theorem markNotarized_spec {t : Tracker} (hi : Inv t) {blk : Nat × Nat} {t' : T
   · split at h
     · cases h; exact (MidSpec.refl hi).step
     · cases h
-  · split at h
-    · cases h; exact (MidSpec.refl hi).step
-    · cases h
+  · cases h; exact (MidSpec.refl hi).step
   · cases h; exact (MidSpec.refl hi).step
   · rename_i hst
     refine hfb_step (t := { t with status := setSt t.status blk.1 (.finalized blk.2) }) ?_ h
@@ -702,9 +696,7 @@ theorem finalized_report_cause {t : Tracker} {op : Op} {t' : Tracker} {ev : Even
     · split at h
       · cases h; cases hb
       · cases h
-    · split at h
-      · cases h; cases hb
-      · cases h
+    · cases h; cases hb
     · cases h; cases hb
     · rename_i hst
       have := hfb h
